@@ -122,7 +122,7 @@ std::string Scenario::CommandLine(const Stmt& s) const {
 // Half of the dyndep bindings are written on the rule, so that the build statement
 // has no bindings (and hence no scope) of its own - derived from the statement, not
 // drawn from the tape.
-static bool DyndepOnRule(const Stmt& s) { return !s.dyndep.empty() && Hash64(s.dyndep, (uint64_t)s.id * 31 + 7) % 2 == 0; }
+static bool DyndepOnRule(const Stmt& s) { return !s.phony && !s.dyndep.empty() && Hash64(s.dyndep, (uint64_t)s.id * 31 + 7) % 2 == 0; }
 
 // A third of the statements with deps / depfile bind them on the build statement instead of the rule.
 static bool DepsOnBuild(const Stmt& s) { return s.deps_kind != 0 && !s.outs.empty() && Hash64(s.outs[0], (uint64_t)s.id * 17 + 11) % 3 == 0; }
@@ -207,9 +207,16 @@ std::string Scenario::DyndepText(const DyndepFile& d) const {
   for (const DyndepEntry& e : d.entries) {
     if (e.stmt < 0 || !stmts[e.stmt].alive) continue;
     o += "build " + NinjaPathEscape(stmts[e.stmt].outs[0]);
-    if (!e.imp_outs.empty()) { o += " |"; for (auto& p : e.imp_outs) o += " " + NinjaPathEscape(p); }
+    // tools spell the same file in several ways; ninja canonicalises what it reads
+    auto spell = [&](const std::string& p) {
+      uint64_t style = Hash64(p, (uint64_t)e.stmt * 11 + 4) % 5;
+      if (style == 0) return "./" + p;
+      if (style == 1) { size_t sl = p.find('/'); return sl == std::string::npos ? "././" + p : p.substr(0, sl) + "//" + p.substr(sl + 1); }
+      return p;
+    };
+    if (!e.imp_outs.empty()) { o += " |"; for (auto& p : e.imp_outs) o += " " + NinjaPathEscape(spell(p)); }
     o += ": dyndep";
-    if (!e.imp_ins.empty()) { o += " |"; for (auto& p : e.imp_ins) o += " " + NinjaPathEscape(p); }
+    if (!e.imp_ins.empty()) { o += " |"; for (auto& p : e.imp_ins) o += " " + NinjaPathEscape(spell(p)); }
     o += "\n";
     if (e.restat) o += "  restat = 1\n";
   }
@@ -382,18 +389,27 @@ struct Gen {
       s.phony = true;
       snprintf(b, sizeof b, "ph%d", i);
       s.outs.push_back(Deco(b, 2));
+      // a quarter of the aliases name two things at once
+      if (Has(F_MULTIOUT) && Hash64(s.outs[0], (uint64_t)i * 3 + 1) % 4 == 0) { snprintf(b, sizeof b, "ph%db", i); s.outs.push_back(Deco(b, 6)); }
+      else if (Has(F_MULTIOUT) && Hash64(s.outs[0], (uint64_t)i * 3 + 1) % 4 == 1) { snprintf(b, sizeof b, "ph%di", i); s.imp_outs.push_back(Deco(b, 7)); }
       int nin = (int)C(4);
       if (nin == 0 && !Has(F_PHONY_NOINPUT)) nin = 1;
       for (int k = 0; k < nin; k++) AddUnique(s.ins, PickInput(), s);
       if (Flip(F_ORDERONLY, 1, 4)) AddUnique(s.oo_ins, PickInput(), s);
       sc.stmts.push_back(s);
-      avail.push_back(s.outs[0]);
+      for (auto& o : s.outs) avail.push_back(o);
+      for (auto& o : s.imp_outs) avail.push_back(o);
       return;
     }
     snprintf(b, sizeof b, "o%d", i);
     s.outs.push_back(dir + Deco(b, 3));
     if (Flip(F_MULTIOUT, 1, 4)) { snprintf(b, sizeof b, "o%db", i); s.outs.push_back(dir + Deco(b, 4)); }
-    if (Flip(F_MULTIOUT, 1, 6)) { snprintf(b, sizeof b, "o%di", i); s.imp_outs.push_back(dir + Deco(b, 5)); }
+    if (Flip(F_MULTIOUT, 1, 6)) {
+      snprintf(b, sizeof b, "o%di", i);
+      // half of the implicit outputs live in a directory of their own (which nothing else creates)
+      std::string idir = (Has(F_SUBDIRS) && Hash64(std::string(b), (uint64_t)i * 7 + 2) % 2 == 0) ? "x" + std::to_string(i) + "/" : dir;
+      s.imp_outs.push_back(idir + Deco(b, 5));
+    }
     int nin = 1 + (int)C(3);
     for (int k = 0; k < nin; k++) AddUnique(s.ins, PickInput(), s);
     if (Has(F_IMPLICIT)) { int m = (int)C(3); for (int k = 0; k < m; k++) AddUnique(s.imp_ins, PickInput(), s); }
@@ -541,7 +557,7 @@ struct Gen {
   void MakeCycle() {
     std::vector<std::pair<int, int>> pairs;
     for (const Stmt& b : sc.stmts) for (const Stmt& a : sc.stmts)
-      if (!a.regen && !b.regen && !a.phony && a.id <= b.id && (a.id == b.id || DependsOn(b.id, a.id))) pairs.emplace_back(a.id, b.id);
+      if (!a.regen && !b.regen && (!a.phony || a.AllOuts().size() >= 2) && a.id <= b.id && (a.id == b.id || DependsOn(b.id, a.id))) pairs.emplace_back(a.id, b.id);
     if (pairs.empty()) return;
     auto pr = pairs[C((uint32_t)pairs.size())];
     Stmt& a = sc.stmts[pr.first];
